@@ -234,9 +234,13 @@ def check(ctx):
     # ---------------------------------------------------------------- R4 libtool
     r4 = ctx.rule('R4', 'libtool archives resolve to the base name of their dlname', floor=3)
     um = py.mod('utils')
-    pv = um.assigns.get('_libtool_pat')
-    if not pv or P.call_name(pv[0]) != 're.compile':
-        raise AnalysisError('utils._libtool_pat missing')
+    # the dlname pattern: the module-level re.compile whose text names the `dlname=` field (whatever the constant is called)
+    dl_names = [k for k, v in um.assigns.items() if v and isinstance(v[0], ast.Call) and P.call_name(v[0]) == 're.compile' and v[0].args
+                and isinstance(py.try_fold(v[0].args[0], um), str) and py.try_fold(v[0].args[0], um).startswith('dlname=')]
+    if len(dl_names) != 1:
+        raise AnalysisError('utils: the compiled pattern for the dlname field was not found uniquely (%s)' % dl_names)
+    DLPAT = dl_names[0]
+    pv = um.assigns.get(DLPAT)
     ptxt = py.fold(pv[0].args[0], um)
     try:
         tree = rx.parse(ptxt)
@@ -260,7 +264,7 @@ def check(ctx):
     ef = py.func('utils', '_extract_dlname_field')
     EF = gsa.Summary(py, 'utils', '_extract_dlname_field', inline_module_funcs=True)
     src_ = sorted(set(gsa._unparse(n) for g_, n in EF.returns))
-    r4.check(len(src_) == 2 and 'None' in src_ and any(re.search(r'^_libtool_pat\.search\(.*\)\.(groups\(\)\[0\]|group\(1\))$', x) for x in src_), 'dlname capture returned', um.rel, ef.lineno,
+    r4.check(len(src_) == 2 and 'None' in src_ and any(re.search(r'^%s\.search\(.*\)\.(groups\(\)\[0\]|group\(1\))$' % re.escape(DLPAT), x) for x in src_), 'dlname capture returned', um.rel, ef.lineno,
              '_extract_dlname_field returns %s' % src_)
     xf = py.func('utils', 'extract_libtool_shlib')
     XF = gsa.Summary(py, 'utils', 'extract_libtool_shlib', inline_only=())
